@@ -93,6 +93,12 @@ def requests():
 
     R["r34"] = dict(R["r8"], z=_ro(R["r8"]["z"]), profiles=tuple(_ro(a) for a in R["r8"]["profiles"]), srf_flx=_ro(R["r8"]["srf_flx"]))
     R["r35"] = dict(R["r4"], srf_flx=R["r4"]["srf_flx"].astype(">f8"))
+    # the five profiles as five separate arrays (copies: read from a file, rows of a table) where the closure hands some of them out as
+    # one and the same object - and the other way round: one array object used for Kx and Ky where the values are equal
+    R["r36"] = dict(R["r0"], profiles=tuple(np.array(a, copy=True) for a in R["r0"]["profiles"]))
+    R["r37"] = dict(R["r8"], profiles=tuple(np.array(a, copy=True) for a in R["r8"]["profiles"]))
+    _k8 = np.array(R["r8"]["profiles"][2], copy=True)
+    R["r38"] = dict(R["r8"], profiles=(R["r8"]["profiles"][0], R["r8"]["profiles"][1], _k8, _k8, _k8)) if all(np.array_equal(R["r8"]["profiles"][2], R["r8"]["profiles"][j]) for j in (3, 4)) else dict(R["r8"])
     # float64 / int64 ndarrays where tuples are customary: reused by every repeat of the request in a history (a user loop keeps its arrays)
     R["r20"] = dict(R["r14"], meas_pt=np.array([30.0, 48.0]), domain=np.array([100.0, 112.0]), modes=np.array([6, 8]), levels=np.array([2, 8]))
     R["r21"] = dict(R["r2"], meas_pt=np.array([120.0, 80.0]), domain=np.array([240.0, 160.0]))
@@ -157,7 +163,7 @@ def requests():
 
 PAIRS = {"r1": "r0", "r3": "r2", "r9": "r8", "v_single": "v0", "r26": "r25", "r28": "r27", "r30": "r29", "r32": "r31"}  # single -> its double counterpart
 TWINS = {"r11": "r2", "r12": "r5", "r13": "r0", "r14": "r4", "r10": "r0", "r15": "r4", "r16": "r5", "r17": "r0", "r18": "r8", "r19": "r4", "r20": "r14", "r21": "r2",
-         "r33": "r0", "r34": "r8", "r35": "r4"}
+         "r33": "r0", "r34": "r8", "r35": "r4", "r36": "r0", "r37": "r8", "r38": "r8"}
 VARIANTS = ["v_flxvals", "v_flxshape", "v_z", "v_u", "v_v", "v_kx", "v_ky", "v_kz", "v_domain_scaled", "v_domain_swapped", "v_levels_order",
             "v_levels_other", "v_levels_scalar", "v_modes", "v_halo", "v_halo_none", "v_measpt", "v_bg", "v_analytic", "v_footprint", "v_single"]
 TWINS.update({v: "v0" for v in VARIANTS})
@@ -165,7 +171,7 @@ for _nm in ("v_analytic", "v_footprint", "v_levels_order", "v_bg", "v_halo_none"
     PAIRS[_nm + "_single"] = _nm
     VARIANTS.append(_nm + "_single")
     TWINS[_nm + "_single"] = _nm
-SAME_VALUES = {"r15": "r4", "r16": "r5", "r17": "r0", "r18": "r8", "r19": "r4", "r20": "r14", "r21": "r2", "r33": "r0", "r34": "r8", "r35": "r4"}  # integer / list / numpy-integer spelling of the same argument values  # same geometry, other mode / other physics
+SAME_VALUES = {"r15": "r4", "r16": "r5", "r17": "r0", "r18": "r8", "r19": "r4", "r20": "r14", "r21": "r2", "r33": "r0", "r34": "r8", "r35": "r4", "r36": "r0", "r37": "r8", "r38": "r8"}  # integer / list / numpy-integer spelling of the same argument values  # same geometry, other mode / other physics
 
 
 def do_solve(req):
@@ -303,9 +309,9 @@ def run_case(case):
     rc.NUM_THREADS = 1
     wis = "fftw_wisdom.pkl"
     pending = []
-    LAYOUTS = ("r17", "r18", "r19", "r20", "r21", "r33", "r34", "r35")
+    LAYOUTS = ("r17", "r18", "r19", "r20", "r21", "r33", "r34", "r35", "r36", "r37", "r38")
     if not any(x in pool for x in LAYOUTS):
-        pool.append(str(rng.choice(["r17", "r18", "r33", "r34", "r35"])))
+        pool.append(str(rng.choice(["r17", "r18", "r33", "r34", "r35", "r36", "r37", "r38"])))
         pool.append(SAME_VALUES[pool[-1]])
         for nm_ in pool[-2:]:
             need(nm_)
